@@ -46,6 +46,12 @@ var reviewedReplyFields = map[string]string{
 	"autoscaling.TagDescription.Key":                                  "tag of the successfully described ASG (registration path)",
 }
 
+// reviewedCallResults: possibly-nil results of repo accessors dereferenced without a local guard,
+// keyed by the accessor.
+var reviewedCallResults = map[string]string{
+	"(*pkg/k8s.NodeInfo).Node": "entries whose node is nil are removed when the node-info map is built (CreateNodeNameToInfoMap deletes incomplete infos), and the map is only read afterwards",
+}
+
 type panicSite struct {
 	in   ssa.Instruction
 	kind string
@@ -428,6 +434,15 @@ func (ck *Check) derefSite(ctx *Ctx, in ssa.Instruction, mkKey func(string) stri
 	if why, ok := reviewedReplyFields[typeKey]; ok && typeKey != "" {
 		ck.ok("C20.R2", key, ck.P.instrPos(in), funcID(fn), "the dereferenced value ("+desc+") is known to be present", "reviewed ("+typeKey+"): "+why)
 		return
+	}
+	// results of repo accessors reviewed by callee, wherever the caller lives
+	if c, ok := ptr.(*ssa.Call); ok {
+		if g := c.Common().StaticCallee(); g != nil {
+			if why, ok := reviewedCallResults[funcID(g)]; ok {
+				ck.ok("C20.R2", key, ck.P.instrPos(in), funcID(fn), "the dereferenced value ("+desc+") is known to be present", "reviewed ("+funcID(g)+"): "+why)
+				return
+			}
+		}
 	}
 	if why, ok := reviewedDerefs[funcID(fn)+"/"+fieldName]; ok {
 		ck.ok("C20.R2", key, ck.P.instrPos(in), funcID(fn), "the dereferenced value ("+desc+") is known to be present", "reviewed: "+why)
